@@ -188,9 +188,18 @@ def op_hb(rig, which):
             for c, s in CMD_TO_STATE.items():
                 new = sx.ite(cs == c, s, new)
             rig.hb_state = new
+    elif which == "start_direct":
+        # the public start_heartbeat(ms) call, independent of what 0x1017 holds
+        t = sx.fresh_int("hbd", 1, 0xFFFF)
+        node.nmt.start_heartbeat(t)
+        rig.ref["hb"] = dict(period=t / 1000.0)
+    elif which == "stop_direct":
+        node.nmt.stop_heartbeat()
+        rig.ref["hb"] = None
     else:
         names = list(NAME_TO_CMD)
-        name = names[sx.choice(len(names), "name")]
+        name = which.split(":", 1)[1] if ":" in which else names[sx.choice(len(names), "name")]
+        which = "state"
         old = rig.hb_state
         node.nmt.state = name
         new = CMD_TO_STATE[NAME_TO_CMD[name]]
@@ -311,6 +320,11 @@ def jobs(tier):
                     ["start_p", "assign", "assign", "stop", "assign", "start_p", "assign", "update"],
                     ["assign", "start_p", "stop", "start", "assign", "stop", "assign", "start", "assign"]):
             out.append(dict(func="scripted", params=dict(producer="pdo", ops=ops, modifiable=mod), weight=500))
+        for ops in (["start_direct", "state:RESET", "state:PRE-OPERATIONAL"],
+                    ["start_direct", "state:OPERATIONAL", "state:RESET COMMUNICATION", "state:PRE-OPERATIONAL", "state:OPERATIONAL"],
+                    ["write1017", "start_direct", "state:RESET", "state:PRE-OPERATIONAL", "stop_direct"],
+                    ["start_direct", "stop_direct", "state:RESET", "state:PRE-OPERATIONAL", "start_direct"]):
+            out.append(dict(func="scripted", params=dict(producer="hb", ops=ops, modifiable=mod), weight=300))
         out.append(dict(func="scripted", params=dict(producer="sync", ops=["start_p", "stop", "start", "start_p", "stop", "start",
                                                                          "start", "stop"], modifiable=mod)))
         for prod, kq, kt in (("sync", 4, 6), ("pdo", 4, 5), ("guard", 4, 6), ("hb", 3, 3)):
@@ -345,7 +359,7 @@ META = dict(
                     "interleaving calls from several threads"],
     assumptions=["periods are positive integers (seconds) in the harness; heartbeat time t ms gives period t/1000.0"],
     stubs=["can (model bus with live task set)", "struct", "threading", "logging"],
-    required_reach=["disconnect-reports", "scripted-pdo", "scripted-sync", "sync-start_p", "sync-start", "sync-stop", "pdo-start_p", "pdo-start", "pdo-stop", "pdo-update",
+    required_reach=["disconnect-reports", "scripted-hb", "hb-start_direct", "scripted-pdo", "scripted-sync", "sync-start_p", "sync-start", "sync-stop", "pdo-start_p", "pdo-start", "pdo-stop", "pdo-update",
                     "pdo-assign", "pdo-assign-bits", "pdo-echo", "hb-write1017", "hb-malformed", "hb-zero", "hb-command", "hb-state", "hb-boot", "guard-start",
                     "guard-stop", "disconnect", "cross"],
     limits=dict(quick=dict(max_decisions=20000), thorough=dict(max_decisions=50000, job_timeout_s=3000)),
